@@ -41,6 +41,12 @@ impl Property for C13 {
         if reads_nothing {
             cfg.reads = false;
         }
+        // a third of the tests declare one or two virtual signals (evaluated after the order check of every checked row:
+        // their success must not hide a failed order check)
+        if dch.chance(1, 3) {
+            cfg.max_virtual = 2;
+            cfg.min_virtual = 1;
+        }
         let mut built = gen_case(&mut Ch::new(&s[0]), &cfg);
         // every row statement carries a tag and two probe inputs `(P)` reading device outputs
         let readable: Vec<String> =
@@ -164,6 +170,14 @@ impl Property for C13 {
                 Deviation::ForeignReplaced(_) => "dev:unknown-signal-replaced",
             });
             spec.deviate_at = Some((c, dev));
+            // in half of the cases the same deviation happens again in the call of a later checked item: the caller
+            // has gone on after the first error, and that row is an error just as well ("a different number or order
+            // than in its FIRST answer" - not: than in its latest)
+            let later: Vec<usize> = checked.iter().copied().filter(|i| *i > k).collect();
+            if !later.is_empty() && dch.chance(1, 2) {
+                spec.deviate_again = Some(later[dch.upto(later.len())] + 1);
+                out.class("deviation-repeated-at-a-later-checked-row");
+            }
             render_case(&mut out, &text, &built.sigs, Some(&spec));
             out.nontrivial = n >= 2;
             // the caller keeps iterating after the error item: "no row that is returned EVER
@@ -267,6 +281,31 @@ impl Property for C13 {
                             );
                             return out;
                         }
+                    }
+                }
+            }
+            // the repeated deviation: whichever item the deviating answer was given to - if it comes back as a row with
+            // output entries, a deviating answer has been accepted
+            if spec.deviate_again.is_some() {
+                for (i, item) in real.items.iter().enumerate().skip(k + 1) {
+                    let (b, a) = (real.log_len_before[i], real.log_len_before[i + 1]);
+                    if a != b + 1 || !real.log[b].deviated || !real.log[b].read {
+                        continue;
+                    }
+                    out.class("repeated-deviation-reached");
+                    match item {
+                        RealItem::Row(r) if !r.outputs.is_empty() => {
+                            out.fail(
+                                "c13:repeated-deviation-not-an-error",
+                                format!("the driver deviated from its first layout in the call for item {k} (an error item, the caller went on) and in the same way in the call for item {i}: that item must be an error too, got {}", item.short()),
+                            );
+                            return out;
+                        }
+                        RealItem::Panic(p) => {
+                            out.fail(p.key(), format!("repeated deviating answer made next() panic: {p}"));
+                            return out;
+                        }
+                        _ => {}
                     }
                 }
             }
